@@ -534,3 +534,15 @@ Example C05_indent0_form_in_domain :
   row_ok (mkRow 15 0 0 16 [Ch 97]) = true /\ row_ok (mkRow 1 0 2 17 [Ch 97; Mid 14; Ch 98]) = true /\
   emit_row true (mkRow 15 0 0 16 [Ch 97]) = [38000; 38000; 24960].
 Proof. vm_compute. repeat split; reflexivity. Qed.
+(* ... and at the level of the SCC TEXT, through the Coq tokeniser (upper / lower hex, LF / CRLF / CR) *)
+From PV Require Import proofs.SccInlineCorFacts.
+Theorem C05_popon_refines_608_inline_text : forall d off ws evs spans up eol,
+  Forall (wseg_clock d off) ws -> forallb pseg_ok8 (wexpand ws) = true ->
+  res_map (pseg_event d off) (wexpand ws) = Ok evs -> positive evs -> after_show None evs ->
+  expected_with join_threshold evs = Ok spans ->
+  Forall wf_sline (map (wseg_line d) ws) -> good_eol eol ->
+  exists caps, read off (tokenise (render_gen up eol (map (wseg_line d) ws))) = ROk caps /\
+               ok_c05 (mkProg d (ploads_of (wexpand ws))) (Ok (map observe caps)) = true /\
+               dom_c05 (mkProg d (ploads_of (wexpand ws))) = true.
+Proof. exact popon_refines_608_inline_text. Qed.
+Print Assumptions C05_popon_refines_608_inline_text.
